@@ -74,48 +74,66 @@ const storageDomain = "generated storage histories on a chain with 6 blobbers an
 
 // C12: for every open allocation the challenge pool balance equals the sum of the per-blobber outstanding challenge
 // values; closing the allocation empties and removes the pool.
-func TestC12_ChallengePoolEqualsBlobberValues(t *testing.T) {
-	changed := 0
-	runMachine(t, "C12", storageDomain+"; oracle after every applied transaction, for every allocation the history created: open => challenge pool balance == sum of the allocation's per-blobber ChallengePoolIntegralValue (exact), closed => neither the allocation nor its challenge pool node exists; non-trivial = history in which a non-zero challenge pool changed in >= 2 transactions; distinct by history", 40, 90,
-		func(m *machine, txn *transaction.Transaction, o sim.Outcome, before *snapshot) error {
-			v := m.w.View()
-			for _, a := range m.allocs {
-				al, aok, err := v.Allocation(a.id)
-				if err != nil {
-					return fmt.Errorf("VERIF-HARNESS-ERROR %v", err)
-				}
-				cp, cok, _ := v.ChallengePool(a.id)
-				if !a.open {
-					if aok || cok {
-						return fmt.Errorf("%s", m.viol("closed-allocation-left-nodes", "allocation %s was closed (%s) but its allocation node exists=%v, challenge pool node exists=%v (balance %d)", a.id[:8], a.closedBy, aok, cok, cp))
-					}
-					continue
-				}
-				if !aok {
-					return fmt.Errorf("%s", m.viol("open-allocation-vanished", "allocation %s is open in the model but has no node", a.id[:8]))
-				}
-				sum := al.SumChallengePoolIntegral()
-				if !cok {
-					cp = 0
-				}
-				if cp != sum {
-					per := ""
-					for _, b := range al.Blobbers {
-						per += fmt.Sprintf(" %s:%d", b.BlobberID[:6], b.ChallengePoolIntegralValue)
-					}
-					return fmt.Errorf("%s", m.viol("challenge-pool-differs", "allocation %s: challenge pool %d, sum of blobber values %d (difference %d;%s) after %s (%s)", a.id[:8], cp, sum, int64(cp)-int64(sum), per, txn.FunctionName, map[bool]string{true: "failed", false: "ok"}[o.Failed]))
-				}
-				if cp != before.cpool[a.id] && cp > 0 {
-					changed++
-				}
+var c12Changed = 0
+
+func c12After(m *machine, txn *transaction.Transaction, o sim.Outcome, before *snapshot) error {
+	v := m.w.View()
+	for _, a := range m.allocs {
+		al, aok, err := v.Allocation(a.id)
+		if err != nil {
+			return fmt.Errorf("VERIF-HARNESS-ERROR %v", err)
+		}
+		cp, cok, _ := v.ChallengePool(a.id)
+		if !a.open {
+			if aok || cok {
+				return fmt.Errorf("%s", m.viol("closed-allocation-left-nodes", "allocation %s was closed (%s) but its allocation node exists=%v, challenge pool node exists=%v (balance %d)", a.id[:8], a.closedBy, aok, cok, cp))
 			}
-			return nil
-		},
-		func(m *machine) (bool, string) {
-			nt := changed >= 2
-			changed = 0
-			return nt, "c12"
-		})
+			continue
+		}
+		if !aok {
+			return fmt.Errorf("%s", m.viol("open-allocation-vanished", "allocation %s is open in the model but has no node", a.id[:8]))
+		}
+		sum := al.SumChallengePoolIntegral()
+		if !cok {
+			cp = 0
+		}
+		if cp != sum {
+			per := ""
+			for _, b := range al.Blobbers {
+				per += fmt.Sprintf(" %s:%d", b.BlobberID[:6], b.ChallengePoolIntegralValue)
+			}
+			return fmt.Errorf("%s", m.viol("challenge-pool-differs", "allocation %s: challenge pool %d, sum of blobber values %d (difference %d;%s) after %s (%s)", a.id[:8], cp, sum, int64(cp)-int64(sum), per, txn.FunctionName, map[bool]string{true: "failed", false: "ok"}[o.Failed]))
+		}
+		if cp != before.cpool[a.id] && cp > 0 {
+			c12Changed++
+			vkit.For("C12").Class("pool-changed-by/" + txn.FunctionName)
+		}
+	}
+	return nil
+}
+
+func c12Finish(m *machine) (bool, string) {
+	nt := c12Changed >= 2
+	c12Changed = 0
+	return nt, "c12"
+}
+
+const c12Oracle = "; oracle after every applied transaction, for every allocation the history created: open => challenge pool balance == sum of the allocation's per-blobber ChallengePoolIntegralValue (exact), closed => neither the allocation nor its challenge pool node exists; non-trivial = history in which a non-zero challenge pool changed in >= 2 transactions; distinct by history"
+
+func TestC12_ChallengePoolEqualsBlobberValues(t *testing.T) {
+	caseReset["C12"] = func() { c12Changed = 0 }
+	runMachine(t, "C12", storageDomain+c12Oracle, 40, 90, c12After, c12Finish)
+}
+
+// TestC12_Scripts runs the same oracle over histories made of longer scripted steps that reach the paths the statement
+// names: filling markers, deletes, series of challenges of which early ones are missed and later ones passed (penalty
+// settlement), blobbers re-pricing in opposite directions followed by an extension, replacement of exactly the blobber
+// that has open or failed challenges, kills, owner changes of the economic settings (slash 0 .. 1), hard-fork variants.
+func TestC12_Scripts(t *testing.T) {
+	caseReset["C12"] = func() { c12Changed = 0 }
+	ops := []string{"newAlloc2", "newAlloc2", "fillAlloc", "fillAlloc", "upload", "upload", "delete", "missThenPass", "missThenPass", "missThenPass", "repriceExtend", "repriceExtend",
+		"replaceChallenged", "replaceChallenged", "extend2", "kill", "shutdown", "cancel", "finalize", "storageSettings", "advance", "blobberSettings2", "writeLock", "respond"}
+	runMachineOps(t, "C12", ops, "scripted storage histories (6 blobbers, 4 validators, fork variants none / demeter / demeter+electra): allocations with tight or generous locks, markers that fill a blobber's share, deletes, series of 2..4 challenges on allocations with data of which early ones are failed / unanswered / answered late and later ones passed, write price changes of an allocation's blobbers in opposite directions followed by an extension, replacement of a blobber that has open or failed challenges or an outstanding value, extensions by third parties, kills and shutdowns, owner updates of blobber_slash / kill_slash / cancellation_charge / validator_reward to 0 .. 1, closes"+c12Oracle, 30, 60, c12After, c12Finish)
 }
 
 // C13: a blobber's allocated size equals the sum of its per-blobber sizes over the open allocations it serves and never
